@@ -47,7 +47,7 @@ def build_api(case):
         srcs.append(source.FloatSource('nsrc', n, ('X', 'Y', 'Z')))
         il.addInput(inputs['NORMAL'], 'NORMAL', '#nsrc')
     if inputs.get('TEXCOORD') is not None:
-        t = numpy.array(case['fuvs'], dtype=numpy.float32).reshape(-1)
+        t = numpy.array(case['fuvs'], dtype=getattr(numpy, case.get('uv_dtype') or 'float32')).reshape(-1)
         srcs.append(source.FloatSource('tsrc', t, ('S', 'T')))
         il.addInput(inputs['TEXCOORD'], 'TEXCOORD', '#tsrc', '0')
     if inputs.get('TEXTANGENT') is not None:
